@@ -30,7 +30,7 @@ def commaList (s : String) : List String := if s == "-" || s == "" then [] else 
 
 /-- `e12` ↦ 12 ; unknown names (x…, nil) ↦ 0 -/
 def entryNum (s : String) : Nat :=
-  if s.startsWith "e" then (((s.drop 1).toString.replace "!" "").toNat?).getD 0 else 0
+  if s.startsWith "e" then ((((s.drop 1).toString.replace "!" "").replace "~" "").toNat?).getD 0 else 0
 
 def namesToNums (s : String) : List Nat := (commaList s).map entryNum
 
